@@ -23,6 +23,7 @@
   a proof layer; nothing in this file is stated about it.
 -/
 import PsutilModel.Proofs.C18Code
+import PsutilModel.Proofs.C18Who
 import PsutilModel.Model.C18Gen
 namespace Psutil.C18
 open Spec
@@ -588,6 +589,142 @@ theorem C18_rlimit_pid0_refused (c : Cfg) (hg : c.Good) (k : Kernel) (x : Ctx) (
 theorem C18_pid0_is_the_caller :
     ((stepPy cfg { kWitness with self := 7 } 0 ⟨0, none⟩ (.nice (some (.int 5)))).2.procs 7).map (·.nice) = some 5 := by
   decide
+
+/-! ### who is calling, and which process each system call is addressed to (seeded round 5)
+
+  "… for that process … while every other process is unchanged": the process is the one the
+  `Process` object was made for, whoever makes the call. Every attribute can also be reached
+  through primitives that act on the CALLING process (`who = 0`; `os.nice`,
+  `resource.getrlimit/setrlimit`), and a short cut "the target is me" needs to know who "me" is:
+  a pid remembered at import time or when the object was made is no longer the caller's after a
+  `fork()`. `stepPyW c rt o` (Model/C18Who.lean) is the call made by process `k.self` of a program
+  whose module was imported by `o.importPid` and whose object was created by `o.createPid`, with the
+  system calls addressed as `rt` says; `routing` is what the translator extracts from the source
+  (every call of a process-addressed primitive in the front end and in `_pslinux.Process`, its pid
+  argument and the `self.pid == …` tests guarding it). The driver runs `stepPyW cfg routing`. -/
+
+/-- proof obligation on the translator's facts `addr*`: every get and set form hands `self.pid` to
+    every process primitive it calls -/
+theorem cfg_routing_direct : routing = Routing.direct := by decide
+
+/-- **C18_any_caller_refines.** The refinement for EVERY calling process (`k.self`: the target
+    itself, its parent, its forked child, a stranger) and EVERY pair of remembered pids (a program
+    that forked any number of times between import, object creation and the call): whatever the
+    specification promises about process `pid`, the call yields exactly that result and that
+    kernel — the specification never looks at who calls. -/
+theorem C18_any_caller_refines (c : Cfg) (hg : c.Good) (hrep : c.einvalValueError = true) (og : Origin)
+    (k : Kernel) (pid : Nat) (st : PState) (x : Ctx) (r : PyReq) (o : Out) (k' : Kernel)
+    (hpid : pid ≠ 0) (hst : k.procs pid = some st) (hwf : WF k st)
+    (hreg : c.overflowValueError = true ∨ ¬ OverflowRegion r.erase)
+    (hs : Spec.expectPy k pid st r = .promised o k') : stepPyW c Routing.direct og k pid x r = (o, k') := by
+  rw [stepPyW_direct]
+  exact C18_refines_py c hg hrep k pid st x r o k' hpid hst hwf hreg hs
+
+/-- the same for the code as it is: `stepPyW cfg routing` is what the driver runs -/
+theorem C18_any_caller_refines_code (og : Origin) (k : Kernel) (pid : Nat) (st : PState) (x : Ctx) (r : PyReq)
+    (o : Out) (k' : Kernel) (hpid : pid ≠ 0) (hst : k.procs pid = some st) (hwf : WF k st)
+    (hs : Spec.expectPy k pid st r = .promised o k') : stepPyW cfg routing og k pid x r = (o, k') := by
+  rw [cfg_routing_direct]
+  exact C18_any_caller_refines cfg cfg_good cfg_einval_is_valueError og k pid st x r o k' hpid hst hwf
+    (Or.inl cfg_overflow_is_valueError) hs
+
+/-- **C18_set_reaches_exactly_that_process.** "… exactly that value for that process while every
+    other process is unchanged", with the caller and the program's fork history as dimensions: for
+    every caller, every remembered pids and every request, no process other than `pid` — in
+    particular not the CALLER (`k.self ≠ pid`), not the importing process — changes; and a
+    rlimit / nice / ionice / cpu_affinity set that the specification promises shows its value in
+    the kernel state of `pid` and is read back by the get form whatever pids the program remembers
+    (`C18_py_get_rlimit` quantifies over every kernel, hence over every later caller). -/
+theorem C18_set_reaches_exactly_that_process (c : Cfg) (hg : c.Good) (hrep : c.einvalValueError = true)
+    (og : Origin) (k : Kernel) (pid : Nat) (hpid : pid ≠ 0) (x : Ctx) (r : PyReq) :
+    (∀ q, q ≠ pid → (stepPyW c Routing.direct og k pid x r).2.procs q = k.procs q) ∧
+    (k.self ≠ pid → (stepPyW c Routing.direct og k pid x r).2.procs k.self = k.procs k.self) ∧
+    (og.importPid ≠ pid → (stepPyW c Routing.direct og k pid x r).2.procs og.importPid = k.procs og.importPid) ∧
+    (∀ (st : PState) (rs : Scalar) (res : Nat) (f : LimForm) (s h : Int) (s' h' : Nat),
+      k.procs pid = some st → WF k st → rs.val = res → f ≠ .iterator → ValidLimits k st res s h s' h' →
+      Spec.permitted k st (.rlimit res none) = true → r = .rlimit rs (some (f, [s, h])) →
+      ∃ k', stepPyW c Routing.direct og k pid x r = (.ok .none, k') ∧
+        k'.procs pid = some { st with rlimits := fun r => if r = res then (s', h') else st.rlimits r } ∧
+        ∀ (og' : Origin) (x' : Ctx),
+          stepPyW c Routing.direct og' k' pid x' (.rlimit rs none) = (.ok (.limits s h), k')) := by
+  have hf := frame_stepPy c k hpid x r
+  refine ⟨?_, ?_, ?_, ?_⟩
+  · intro q hq; rw [stepPyW_direct]; exact hf.others q hq
+  · intro hq; rw [stepPyW_direct]; exact hf.others _ hq
+  · intro hq; rw [stepPyW_direct]; exact hf.others _ hq
+  · intro st rs res f s h s' h' hst hwf hrs hfi hv hperm hr
+    subst hr
+    obtain ⟨k', h1, h2, _, h4⟩ :=
+      C18_py_set_then_get_rlimit c hg hrep k pid st x rs res f s h s' h' hpid hst hwf hrs hfi hv hperm
+    refine ⟨k', by rw [stepPyW_direct]; exact h1, h2, ?_⟩
+    intro og' x'
+    rw [stepPyW_direct]
+    exact h4 x'
+
+/-- the program of the seeded change C18-5: the module was imported by process 7, which forked;
+    the child 9 makes the calls on its parent -/
+def kFork : Kernel :=
+  { procs := fun q =>
+      if q = 7 then some { nice := 0, ioprio := 0, affinity := [0, 1], cpuset := [0, 1], rlimits := fun _ => (100, 200) }
+      else if q = 9 then some { nice := 0, ioprio := 0, affinity := [0, 1], cpuset := [0, 1], rlimits := fun _ => (100, 200) }
+      else none
+    self := 9, ncpu := 4, nrOpen := 1048576, capResource := true, log := [] }
+
+/-- `rlimit` set through the caller's own `setrlimit()` when `self.pid ==` a pid remembered at import -/
+def rtImportShortcut : Routing := { Routing.direct with rlimitSet := .callerIf .atImport }
+
+/-- **why a remembered pid must not decide** (seeded C18-5 and its relatives). Forked child 9 of
+    importer 7 sets RLIMIT_NOFILE of its parent: with the short cut keyed on the import-time pid the
+    call "succeeds", the parent keeps (100, 200) and the CHILD gets (50, 200) — the specification
+    promises the opposite; in the process that imported the module the same routing is harmless
+    (which is why no single-process test sees it); the same for a pid remembered on the object when
+    the object crosses a fork (`nice`), and for an unconditional caller primitive (`cpu_affinity`,
+    `ionice`); a short cut keyed on `os.getpid()` evaluated in the call is right in both. -/
+theorem C18_remembered_pid_shortcut_counterexample :
+    -- the child, import-time short cut
+    (stepPyW cfg rtImportShortcut ⟨7, 9⟩ kFork 7 ⟨0, none⟩ (.rlimit (.int 7) (some (.tuple, [50, 200])))).1 = .ok .none ∧
+    ((stepPyW cfg rtImportShortcut ⟨7, 9⟩ kFork 7 ⟨0, none⟩ (.rlimit (.int 7) (some (.tuple, [50, 200])))).2.procs 7).map
+      (fun st => st.rlimits 7) = some (100, 200) ∧
+    ((stepPyW cfg rtImportShortcut ⟨7, 9⟩ kFork 7 ⟨0, none⟩ (.rlimit (.int 7) (some (.tuple, [50, 200])))).2.procs 9).map
+      (fun st => st.rlimits 7) = some (50, 200) ∧
+    -- what the code as it is does
+    ((stepPyW cfg routing ⟨7, 9⟩ kFork 7 ⟨0, none⟩ (.rlimit (.int 7) (some (.tuple, [50, 200])))).2.procs 7).map
+      (fun st => st.rlimits 7) = some (50, 200) ∧
+    ((stepPyW cfg routing ⟨7, 9⟩ kFork 7 ⟨0, none⟩ (.rlimit (.int 7) (some (.tuple, [50, 200])))).2.procs 9).map
+      (fun st => st.rlimits 7) = some (100, 200) ∧
+    -- the importing process itself (no fork): the short cut is invisible
+    ((stepPyW cfg rtImportShortcut ⟨7, 7⟩ { kFork with self := 7 } 7 ⟨0, none⟩
+      (.rlimit (.int 7) (some (.tuple, [50, 200])))).2.procs 7).map (fun st => st.rlimits 7) = some (50, 200) ∧
+    -- a pid remembered on the object, the object made before the fork: nice lands on the child
+    ((stepPyW cfg { Routing.direct with niceSet := .callerIf .atCreate } ⟨7, 7⟩ kFork 7 ⟨0, none⟩
+      (.nice (some (.int 5)))).2.procs 9).map (·.nice) = some 5 ∧
+    ((stepPyW cfg { Routing.direct with niceSet := .callerIf .atCreate } ⟨7, 7⟩ kFork 7 ⟨0, none⟩
+      (.nice (some (.int 5)))).2.procs 7).map (·.nice) = some 0 ∧
+    -- an unconditional caller primitive
+    ((stepPyW cfg { Routing.direct with affSet := .caller } ⟨7, 9⟩ kFork 7 ⟨0, none⟩
+      (.cpuAffinity (some (.list, [1])))).2.procs 7).map (·.affinity) = some [0, 1] ∧
+    (stepPyW cfg { Routing.direct with ioniceGet := .caller } ⟨7, 9⟩
+      { kFork with procs := fun q => if q = 9 then some { nice := 0, ioprio := 16388, affinity := [0], cpuset := [0],
+                                                             rlimits := fun _ => (0, 0) } else kFork.procs q }
+      7 ⟨0, none⟩ (.ionice none none)).1 = .ok (.ionice 2 4) ∧
+    -- keyed on os.getpid() in the call: right for the child and for the importer
+    ((stepPyW cfg { Routing.direct with rlimitSet := .callerIf .now } ⟨7, 9⟩ kFork 7 ⟨0, none⟩
+      (.rlimit (.int 7) (some (.tuple, [50, 200])))).2.procs 7).map (fun st => st.rlimits 7) = some (50, 200) := by
+  decide
+
+/-- … and in general: a short cut to the caller's own primitives is sound exactly as far as the pid
+    it is keyed on IS the caller's — always for `os.getpid()` evaluated in the call, for a remembered
+    pid only while no fork lies in between (`Origin.unforked`) -/
+theorem C18_caller_shortcut_sound (c : Cfg) (og : Origin) (k : Kernel) (pid : Nat) (x : Ctx) (r : PyReq)
+    (a : Addr) (ha : a = .pid ∨ a = .callerIf .now ∨ (∃ s, a = .callerIf s ∧ s.eval og k = k.self)) :
+    stepPyW c ⟨a, a, a, a, a, a, a, a⟩ og k pid x r = stepPy c k pid x r := by
+  apply stepPyW_sound
+  have hw : resolve k (a.who og k pid) = resolve k pid := by
+    rcases ha with rfl | rfl | ⟨s, rfl, hs⟩
+    · rfl
+    · exact who_now_sound og k pid
+    · exact who_remembered_sound s og k pid hs
+  exact ⟨hw, hw, hw, hw, hw, hw, hw, hw⟩
 
 /-! ### who may do what: privilege failures are noticed and change nothing
 
